@@ -77,6 +77,41 @@ def consts():
     if len(sup) != 1:
         raise walk.Untranslatable(f"IndexingSupport: {sup}")
     out["indexingSupport"] = sup[0]
+
+    # ---- concurrency facts (C19): the handle is opened inside __getitem__ and never stored; one lock per variable
+    gi = ast.parse(inspect.getsource(A.Array.__getitem__).lstrip()) if False else ast.parse(__import__("textwrap").dedent(inspect.getsource(A.Array.__getitem__)))
+    opens = [ast.unparse(it.context_expr) for w in ast.walk(gi) if isinstance(w, ast.With) for it in w.items
+             if "open" in ast.unparse(it.context_expr)]
+    all_opens = [ast.unparse(c) for c in ast.walk(gi) if isinstance(c, ast.Call) and isinstance(c.func, ast.Attribute) and c.func.attr == "open"]
+    self_assigns = [ast.unparse(t) for n in ast.walk(gi) if isinstance(n, (ast.Assign, ast.AugAssign, ast.AnnAssign))
+                    for t in (n.targets if isinstance(n, ast.Assign) else [n.target]) if ast.unparse(t).startswith("self.")]
+    cls = ast.parse(inspect.getsource(A.Array))
+    other_opens = [f.name for f in ast.walk(cls) if isinstance(f, ast.FunctionDef) and f.name != "__getitem__"
+                   and any(isinstance(c, ast.Call) and isinstance(c.func, ast.Attribute) and c.func.attr == "open" for c in ast.walk(f))]
+    out["getitemWithOpens"] = opens
+    out["getitemAllOpens"] = all_opens
+    out["getitemSelfAssigns"] = self_assigns
+    out["arrayOtherOpens"] = other_opens
+    raw = ast.parse(__import__("textwrap").dedent(inspect.getsource(X.LazilyIndexedWrapper._raw_indexing_method))).body[0]
+    out["rawIndexingBody"] = [ast.unparse(st) for st in raw.body]
+    tv = ast.parse(inspect.getsource(X.to_variable)).body[0]
+    out["lockCreation"] = [ast.unparse(n) for n in ast.walk(tv) if isinstance(n, ast.Assign) and "Lock" in ast.unparse(n.value)]
+    init = ast.parse(__import__("textwrap").dedent(inspect.getsource(X.LazilyIndexedWrapper.__init__))).body[0]
+    out["wrapperDtype"] = [ast.unparse(n.value) for n in ast.walk(init) if isinstance(n, ast.Assign) and ast.unparse(n.targets[0]) == "self.dtype"]
+
+    # ---- cache flow facts (C07/C09/C10)
+    import ceos_alos2.sar_image as SI
+    import ceos_alos2.sar_image.caching as CA
+    oi = ast.parse(inspect.getsource(SI.open_image)).body[0]
+    out["openImageExcept"] = [ast.unparse(h.type) for n in ast.walk(oi) if isinstance(n, ast.Try) for h in n.handlers]
+    out["cachingErrorBases"] = [b.__name__ for b in CA.CachingError.__mro__[1:3]]
+    rc = ast.parse(inspect.getsource(CA.read_cache)).body[0]
+    out["readCacheOrder"] = [ast.unparse(n.test) for n in rc.body if isinstance(n, ast.If)]
+    dc = ast.parse(inspect.getsource(CA.decode)).body[0]
+    out["decodeExcept"] = [ast.unparse(h.type) + " -> " + ast.unparse(h.body[-1]) for n in ast.walk(dc) if isinstance(n, ast.Try) for h in n.handlers]
+    import ceos_alos2.io as IOM
+    sig = inspect.signature(IOM.open)
+    out["openDefaults"] = [f"{k}={v.default!r}" for k, v in sig.parameters.items() if v.default is not inspect.Parameter.empty]
     return out
 
 
@@ -115,6 +150,9 @@ def render_consts(c):
     L.append("def dtypes : List (String × String × Nat) := [" + ", ".join(f"({lean_str(a)}, {lean_str(b)}, {n})" for a, b, n in c["dtypes"]) + "]")
     L.append("/-- `IndexingSupport.<X>` declared by `LazilyIndexedWrapper.__getitem__` -/")
     L.append(f"def indexingSupport : String := {lean_str(c['indexingSupport'])}")
+    for key in ("getitemWithOpens", "getitemAllOpens", "getitemSelfAssigns", "arrayOtherOpens", "rawIndexingBody", "lockCreation", "wrapperDtype",
+                "openImageExcept", "cachingErrorBases", "readCacheOrder", "decodeExcept", "openDefaults"):
+        L.append(f"def {key} : List String := [" + ", ".join(lean_str(x) for x in c[key]) + "]")
     L += ["", "end Alos2.Gen", ""]
     return "\n".join(L)
 
@@ -129,6 +167,8 @@ def main(outdir):
     info.update(translate_layouts.main(outdir))
     import translate_config
     info.update(translate_config.main(outdir))
+    import translate_tables
+    info.update(translate_tables.main(outdir))
     return info
 
 
